@@ -190,7 +190,7 @@ Section Rec.
   Lemma keeps_printValue value verb depth ci : keeps (printValue rec env value verb depth ci).
   Proof. unfold printValue. destruct depth; destruct value; kp2; try apply keeps_print_kind. Qed.
   Lemma keeps_printArg_body arg verb : keeps (printArg_body rec env arg verb).
-  Proof. unfold printArg_body. kp2. Qed.
+  Proof. unfold printArg_body, printArg_inner. kp2. Qed.
   Lemma keeps_printArg arg verb : keeps (printArg rec env arg verb).
   Proof. unfold printArg. kp2; apply keeps_printArg_body. Qed.
 
